@@ -1,5 +1,3 @@
-//go:build !vsreal
-
 // Package c15: the connection pool never exceeds its bounds or mishandles
 // ownership, for all put/take/close sequences and all timings of expiry callbacks.
 package c15
